@@ -85,6 +85,7 @@ class World:
         self.obj = m
         self.orig = copy.deepcopy(m)
         self.X = r.normal(size=(40, D)) * 2
+        self.rr = r
         self.path = None
         self.loaded_from = None
         self.n = 0
@@ -145,13 +146,29 @@ class World:
             ubm = self.prior if op in ("FromFile",) else None
             try:
                 if op == "LoadInto":
+                    # the receiving object has a life of its own: other settings, other floors (a scalar or an array of
+                    # its own shape, above the variances in the file), possibly another number of Gaussians
+                    rr = self.rr
+                    okw = dict(max_fitting_steps=int(rr.randint(1, 9)), convergence_threshold=float(rr.choice([1e-2, 1e-7])),
+                               update_means=bool(rr.randint(0, 2)), update_variances=bool(rr.randint(0, 2)),
+                               update_weights=bool(rr.randint(0, 2)))
                     if self.prior is not None:
-                        other = em.GMMMachine(self.C, trainer="map", ubm=self.prior)
-                        other.means = np.zeros((self.C, self.D))
+                        Co = self.C
+                        other = em.GMMMachine(Co, trainer="map", ubm=self.prior, **okw)
                     else:
-                        other = em.GMMMachine(self.C + 1)
-                        other.means = np.zeros((self.C + 1, self.D))
-                        other.variances = np.ones((self.C + 1, self.D))
+                        Co = self.C + int(rr.randint(0, 2))
+                        other = em.GMMMachine(Co, **okw)
+                    rf = int(rr.randint(0, 4))
+                    if rf == 1:
+                        other.variance_thresholds = 5.0
+                    elif rf == 2:
+                        other.variance_thresholds = rr.uniform(3.5, 6.0, size=(Co, self.D))
+                    elif rf == 3:
+                        other.variance_thresholds = rr.uniform(3.5, 6.0, size=self.D)
+                    other.means = rr.normal(size=(Co, self.D))
+                    other.variances = rr.uniform(0.5, 8.0, size=(Co, self.D))
+                    self.desc["receiver"] = {"n_gaussians": Co, "floors": ["default", "scalar 5.0", "matrix of its own shape",
+                                                                            "per feature"][rf], "settings": okw}
                     if self.handle:
                         with self.opened(self.path, "r") as h:
                             other.load(h)
